@@ -450,7 +450,9 @@ class ContentSecurityPolicySourceHash(ParsableBase, Serializable):
         except InvalidValue as e:
             six.raise_from(InvalidType(), e)
 
-        parser.parse_string_until_separator_or_end('hash_value', ' ')
+        parser.parse_string_until_separator_or_end('hash_value', ' ', item_class=convert_base64_data())
+        if not isinstance(parser['hash_value'], Base64Data):
+            raise InvalidValue(parser['hash_value'], cls, 'hash_value')
 
         return cls(parser['hash_algorithm'].hash_algorithm, parser['hash_value']), parser.parsed_length
 
@@ -487,7 +489,9 @@ class ContentSecurityPolicySourceNonce(ParsableBase, Serializable):
 
         del parser['prefix']
 
-        parser.parse_string_until_separator_or_end('value', ' ')
+        parser.parse_string_until_separator_or_end('value', ' ', item_class=convert_base64_data())
+        if not isinstance(parser['value'], Base64Data):
+            raise InvalidValue(parser['value'], cls, 'value')
 
         return cls(**parser), parser.parsed_length
 
